@@ -837,6 +837,16 @@ func c12(c *ctx) {
 	for k := 0; k < 2; k++ {
 		c12closeWhileAdding(c, k)
 	}
+	for k := 0; k < 2; k++ {
+		c12closeWhileAddrs(c, k)
+	}
+	nmw := 8
+	if c.thorough() {
+		nmw = 32
+	}
+	for k := 0; k < nmw; k++ {
+		c12manyWaiters(c, k)
+	}
 	for v := 0; v < 3; v++ {
 		sz := 6 << 20
 		if c.thorough() {
